@@ -149,7 +149,7 @@ pub struct Mutex<T: ?Sized, R> {
 /// [`try_lock`]: `Mutex::try_lock`
 /// [`Deref`]: `std::ops::Deref`
 /// [`DerefMut`]: `std::ops::DerefMut`
-pub struct MutexRef<'a, T: ?Sized + 'a, R: RawMutex>(&'a Mutex<T, R>, PhantomData<R::GuardMarker>);
+pub struct MutexRef<'a, T: ?Sized + 'a, R: RawMutex>(&'a Mutex<T, R>, PhantomData<(R::GuardMarker, *const ())>);
 
 /// An RAII implementation of a “scoped lock” of a mutex. When this structure
 /// is dropped (falls out of scope), the lock will be unlocked.
